@@ -93,8 +93,12 @@ def raw_cases(rng, n):
             # windows the generator reaches rarely, below a binary operation: empty [0:0] / [k:k], one row, offset only
             win = rng.choice([(0, 0), (0, 0), (1, 1), (0, 1), (2, None)])
             counter = [50]
-            q = mp.gen_leaf(rng, 51, sorted({c for c in cols if c.is_key and rng.random() < 0.7} | {gen.fresh_tag(rng, set(cols))}),
-                            ("sql", 0), special=0)
+            shared = {c for c in cols if c.is_key and rng.random() < 0.7} if rng.random() < 0.5 else set()   # else: a cross join
+            q = mp.gen_leaf(rng, 51, sorted(shared | {gen.fresh_tag(rng, set(cols))}), ("sql", 0), special=0)
+            for _try in range(10):
+                if q[4]:
+                    break
+                q = mp.gen_leaf(rng, 51, q[3], ("sql", 0), special=0)
             terms = sp.total_sort_terms(rng, set(cols))
             inner = ("un", ("slice", win[0], win[1]), mp.DEFAULT, ("un", ("sort", terms), mp.DEFAULT, p)) if cols else \
                 ("un", ("slice", win[0], win[1]), mp.DEFAULT, p)
@@ -151,12 +155,12 @@ def run(ctx):
     bits = {1: "built tree (or exception class) differs from the model's",
             8: "a SELECT marker is not coherent with the operation nodes between it and its skip target",
             16: "a SQL-engine relation produced by the factories is not a SELECT marker"}
-    summ = core.judge(ctx, cases, HDR, "check_struct_c17", bits=bits, signature_of=signature)
-    found |= summ["spec_failures"] > 0
     raws, refused = raw_cases(rng, 250 if ctx.tier == "quick" else 6000)
     rsumm = core.judge(ctx, raws, "From DR Require Import Model.CheckMulti.\nOpen Scope Z_scope.\n", "check_raw", prefix="cases_C17raw",
                        bits={4: "conforming a raw tree changed its rows (database result, both scan orders, against the specification)"})
     found |= rsumm["spec_failures"] > 0
+    summ = core.judge(ctx, cases, HDR, "check_struct_c17", bits=bits, signature_of=signature, found_elsewhere=found)
+    found |= summ["spec_failures"] > 0
     core.conclude_s1(ctx, s1, found or bool(ctx.violations))
     ctx.coverage.update({
         "evaluations": len(cases), "distinct_nontrivial": len({c["key"] for c in cases if c["nontrivial"]}),
